@@ -22,6 +22,7 @@ func main() {
 	n := flag.Int("n", 300, "number of cases")
 	out := flag.String("out", "work", "output directory")
 	shard := flag.Int("shard", 150, "cases per Gallina file")
+	ids := flag.String("ids", "", "comma-separated case ids: emit only these, with an explain dump")
 	flag.Parse()
 	time.Local = time.UTC
 	debug.SetGCPercent(400)
@@ -30,14 +31,22 @@ func main() {
 	}
 	switch *family {
 	case "engine":
-		engine(*profile, *seed, *n, *out, *shard)
+		engine(*profile, *seed, *n, *out, *shard, *ids)
 	default:
 		fmt.Fprintln(os.Stderr, "unknown family", *family)
 		os.Exit(2)
 	}
 }
 
-func engine(profile string, seed uint64, n int, out string, shard int) {
+func engine(profile string, seed uint64, n int, out string, shard int, ids string) {
+	only := map[int]bool{}
+	for _, x := range strings.Split(ids, ",") {
+		if x != "" {
+			var k int
+			fmt.Sscan(x, &k)
+			only[k] = true
+		}
+	}
 	p := eng.ProfileByName(profile)
 	stats := eng.NewStats()
 	var samples []string
@@ -51,6 +60,9 @@ func engine(profile string, seed uint64, n int, out string, shard int) {
 		body := "From Zog Require Import Corr.EngineCheck.\nImport ListNotations.\nOpen Scope string_scope.\nSet Printing Width 100000.\nSet Printing Depth 100000.\n" +
 			"Definition cases : list ecase := [\n" + strings.Join(cur, ";\n") + "\n].\n" +
 			"Definition R := Eval vm_compute in check_all cases.\nPrint R.\n"
+		if len(only) > 0 {
+			body += "Definition X := Eval vm_compute in explain cases.\nPrint X.\n"
+		}
 		if err := os.WriteFile(filepath.Join(out, name), []byte(body), 0o644); err != nil {
 			panic(err)
 		}
@@ -58,9 +70,17 @@ func engine(profile string, seed uint64, n int, out string, shard int) {
 		cur = nil
 	}
 	for i := 0; i < n; i++ {
+		if len(only) > 0 && !only[i] {
+			continue
+		}
 		g := &eng.Gen{R: eng.NewRng(seed*1000003 + uint64(i)), P: p}
 		c := eng.NewCase(g, i, nil)
 		stats.Add(c)
+		if len(only) > 0 && !c.RepeatsAgree() {
+			for _, r := range c.Repeats {
+				fmt.Fprintf(os.Stderr, "--- repeat of case %d\n%s\n", i, r)
+			}
+		}
 		term := c.Coq()
 		cur = append(cur, term)
 		if len(samples) < 3 {
